@@ -23,6 +23,9 @@ def main():
         elif a.prop in ("C04", "C05", "C06", "C07", "C08"):
             from . import replaceops
             rc = replaceops.run(a.prop, a.tier, a.replay)
+        elif a.prop == "C20":
+            from . import cliops
+            rc = cliops.run(a.prop, a.tier, a.replay)
         elif a.prop == "C19":
             from . import termops
             rc = termops.run(a.prop, a.tier, a.replay)
